@@ -328,6 +328,7 @@ class Job:
         # correctly perform code reactivity
         # See: docs/source/implementation/graph_reduction_caching.md
         self.subtree_tasks: set[Task] = {task}
+        self.was_cse_hit: bool = False
 
         # Promise for evaluating self.expr.
         self.result_promise: Promise = Promise()
@@ -1933,11 +1934,12 @@ class Scheduler:
             check_valid = job.get_option(
                 "check_valid", CacheCheckValid.FULL, as_type=CacheCheckValid
             )
-            if check_valid == CacheCheckValid.FULL:
+            if check_valid == CacheCheckValid.FULL and not job.was_cse_hit:
                 job.calc_subtree_tasks()
             else:
-                # If we did ultimate reduction caching, then we need to query the
-                # backend to determine subtree tasks.
+                # If we did ultimate reduction caching or used the final result of an
+                # equivalent call of this execution (CSE), no child jobs were evaluated, so we
+                # need to query the backend to determine subtree tasks.
                 job.subtree_tasks = self._get_subtree_tasks(job)
         else:
             # Ignore failed child jobs, which have no call_hash.
@@ -2282,6 +2284,7 @@ class Scheduler:
         if cache_type == CacheResult.CSE:
             # If this is a CSE hit, we can use the result immediately. The result may be
             # an error wrapped as a `ErrorValue`, but we can still use it.
+            job.was_cse_hit = True
             return result, True, call_hash
         elif isinstance(result, ErrorValue):
             # Errors can't be used from the backend cache.
